@@ -424,7 +424,10 @@ class ComponentLevel2( ComponentLevel1 ):
         # Recognize overlapped slices
         if x.slice_overlap( obj ) and x in write_upblks:
           wrx_blks = list(write_upblks[x])
-          raise MultiWriterError( \
+
+          # The same block may write overlapping slices (it is one writer)
+          if wrx_blks[0] != wr_blks[0]:
+            raise MultiWriterError( \
             "Two-writer conflict between sibling slices. \n - {} (in {})\n - {} (in {})".format(
               repr(x), wrx_blks[0].__name__,
               repr(obj), wr_blks[0].__name__ ) )
